@@ -461,7 +461,8 @@ pub open spec fn ia_mul_exact(a: Interval, b: Interval, r: Interval) -> bool {
     if a.w() <= 64 && ia_mul_fits(a.start, b.start) && ia_mul_fits(a.start, b.end) && ia_mul_fits(a.end, b.start) && ia_mul_fits(a.end, b.end) {
         r == ia_mul_result(a, b)
     } else {
-        r.is_full()
+        // Top -- or, for two constants of at most 8 bytes, the constant that the wrapping multiplication yields
+        r.is_full() || (a.w() <= 64 && a.start == a.end && b.start == b.end && r.start == r.end && r.stride == 0 && r.start == bv_mul(a.start, b.start))
     }
 }
 
